@@ -14,7 +14,7 @@ import gen
 from gen import F, enc_label, dec_label, LabelTable, coq_obs
 import w_c17_py as PYK
 
-KIND_WEIGHTS = [('gate', 30), ('comb', 14), ('mwis', 14), ('mult', 2),
+KIND_WEIGHTS = [('gate', 30), ('comb', 14), ('mwis', 14), ('mult', 2), ('multwire', 2),
                 ('knapsack', 10), ('binpacking', 8), ('multiknapsack', 8), ('random', 14)]
 STRENGTHS = ['1/2', '1', '2', '3']
 GATES = {'and': ('and_gate', 3, 'GAnd'), 'or': ('or_gate', 3, 'GOr'), 'xor': ('xor_gate', 4, 'GXor'),
@@ -45,6 +45,9 @@ def gen_case(rng, tier):
     if kind == 'mult':
         sizes = MULT_QUICK * (1 if tier == 'thorough' else 2) + [(3, 3)]     # 3x3 costs ~20 s
         na, nb = rng.choice(sizes)
+        return {"kind": kind, "na": na, "nb": nb, "nb_form": rng.choice(['pos', 'kw', 'omit'] if na == nb else ['pos', 'kw'])}
+    if kind == 'multwire':
+        na, nb = rng.randint(1, 6), rng.randint(1, 6)
         return {"kind": kind, "na": na, "nb": nb, "nb_form": rng.choice(['pos', 'kw', 'omit'] if na == nb else ['pos', 'kw'])}
     if kind == 'comb':
         n = rng.randint(1, 6)
@@ -133,15 +136,51 @@ def run_gate(c):
     return {"coq": coq, "py_fail": py_fail, "features": feats, "nontrivial": True, "observed": {"bqm": o}}
 
 
+import re
+WIRE_RE = [(re.compile(r'^a(\d+)$'), 'WA'), (re.compile(r'^b(\d+)$'), 'WB'), (re.compile(r'^p(\d+)$'), 'WP'),
+           (re.compile(r'^and(\d+),(\d+)$'), 'WAnd'), (re.compile(r'^sum(\d+),(\d+)$'), 'WSum'),
+           (re.compile(r'^carry(\d+),(\d+)$'), 'WCarry')]
+
+
+def wire_term(bqm, na, nb):
+    """Coq case tying the wiring model (Model/MultCircuit.v) to the BQM coefficient-wise; None if a
+    variable name is not one of the generator's wire names"""
+    names = []
+    for v in bqm.variables:
+        for rx, ctor in WIRE_RE:
+            m = rx.match(str(v)) if isinstance(v, str) else None
+            if m:
+                names.append("(" + ctor + " " + " ".join(cnat(int(g)) for g in m.groups()) + ")")
+                break
+        else:
+            return None
+    T = LabelTable(list(bqm.variables))
+    return f"(CMultWire {cnat(na)} {cnat(nb)} {clist(names)} {coq_obs(gen.observe(bqm), T)})"
+
+
+def make_mult(c):
+    na, nb = c["na"], c["nb"]
+    if c["nb_form"] == 'pos':
+        return DG.multiplication_circuit(na, nb)
+    if c["nb_form"] == 'kw':
+        return DG.multiplication_circuit(num_arg1_bits=na, num_arg2_bits=nb)
+    return DG.multiplication_circuit(na)
+
+
+def run_multwire(c):
+    na, nb = c["na"], c["nb"]
+    feats = {"kind": "multwire", "size": f"{na}x{nb}"}
+    bqm = make_mult(c)
+    t = wire_term(bqm, na, nb)
+    if t is None:
+        return {"coq": None, "features": feats, "py_fail": f"unexpected variable names {list(bqm.variables)!r}"}
+    return {"coq": t, "features": feats, "nontrivial": True, "py_fail": None if bqm.vartype is dimod.BINARY else "vartype"}
+
+
 def run_mult(c):
     na, nb = c["na"], c["nb"]
     feats = {"kind": "mult", "size": f"{na}x{nb}"}
-    if c["nb_form"] == 'pos':
-        bqm = DG.multiplication_circuit(na, nb)
-    elif c["nb_form"] == 'kw':
-        bqm = DG.multiplication_circuit(num_arg1_bits=na, num_arg2_bits=nb)
-    else:
-        bqm = DG.multiplication_circuit(na)
+    bqm = make_mult(c)
     pbits = [f"p{k}" for k in range(na + nb)]
     present = [v for v in pbits if v in bqm.variables]
     npb = len(present)
@@ -186,7 +225,9 @@ def run_mult(c):
     if any(float(m) != int(m) for m in mins):
         return {"coq": None, "features": feats, "py_fail": "non-integral energy"}
     coq = f"(CMult {cnat(na)} {cnat(nb)} {cnat(npb)} {crows(rows, mins)})"
-    return {"coq": coq, "features": feats, "nontrivial": True,
+    wt = wire_term(bqm, na, nb)
+    return {"coq": coq, "extra_coq": [wt] if wt else [], "features": feats, "nontrivial": True,
+            "py_fail": None if wt else f"unexpected variable names {list(bqm.variables)!r}",
             "observed": {"num_variables": K + A, "aux": [str(v) for v in aux]}}
 
 
@@ -275,14 +316,72 @@ def run_mwis(c):
             "observed": {"bqm": o}}
 
 
+COQ_ROWS = 256      # assignments per CQM case re-evaluated in Coq (all of them when the instance has <= 8 variables)
+SENSE = {'<=': 'SLe', '>=': 'SGe', '==': 'SEq'}
+
+
+def cqm_term(c, last):
+    """Coq case for a knapsack / multi-knapsack / bin packing CQM: the generator's data, what the CQM
+    reports, and check_feasible / objective energy on assignments (variables numbered as in Model/Knap.v)"""
+    cqm = last["cqm"]
+    kind = last["kind"]
+    if kind == 'knapsack':
+        n = len(last["values"])
+        order = [f"x_{i}" for i in range(n)]
+        head = f"CKnap {clist(map(cq, last['values']))} {clist(map(cq, last['weights']))} {cq(last['capacity'])}"
+    elif kind == 'multiknapsack':
+        n, b = len(last["values"]), len(last["capacities"])
+        order = [f"x_{i}_{j}" for i in range(n) for j in range(b)]
+        head = f"CMk {clist(map(cq, last['values']))} {clist(map(cq, last['weights']))} {clist(map(cq, last['capacities']))}"
+    else:
+        n = len(last["weights"])
+        order = [f"y_{j}" for j in range(n)] + [f"x_{i}_{j}" for i in range(n) for j in range(n)]
+        head = f"CBp {clist(map(cq, last['weights']))} {cq(last['capacity'])}"
+    if set(order) != set(cqm.variables) or len(order) > 16:
+        return None
+    T = LabelTable(order)
+    cobj = coq_obs(gen.observe(cqm.objective), T)
+    ccons = []
+    for lab, con in cqm.constraints.items():
+        ccons.append(f"({coq_obs(gen.observe(con.lhs), T)}, {SENSE[con.sense.value]}, {cq(F(con.rhs))})")
+    N = len(order)
+    if N <= 8:
+        rows = all_rows(N)
+    else:
+        rs = wlib.Rng(int.from_bytes(repr(sorted(c.items(), key=str)).encode()[:64].ljust(8, b'0')[:8], 'big') ^ N)
+        rows = [tuple(0 for _ in order), tuple(1 for _ in order)]
+        while len(rows) < COQ_ROWS:
+            p = rs.choice([0.15, 0.3, 0.5])
+            rows.append(tuple(1 if rs.random() < p else 0 for _ in order))
+        if kind == 'binpacking':       # plausible packings: every item in one bin, those bins open
+            for _k in range(COQ_ROWS // 2):
+                row = [0] * N
+                for i in range(n):
+                    j = rs.randrange(n)
+                    row[n + i * n + j] = 1
+                    if rs.random() < 0.9:
+                        row[j] = 1
+                rows.append(tuple(row))
+    crow = []
+    for r in rows:
+        sample = dict(zip(order, r))
+        feas = bool(cqm.check_feasible(sample))
+        en = F(cqm.objective.energy(sample))
+        crow.append(f"({clist([cbool(b) for b in r])}, {cbool(feas)}, {cq(en)})")
+    return f"({head} {cobj} {clist(ccons)} {clist(crow)})"
+
+
 def run_case(c):
     kind = c["kind"]
     if kind in PYK.KINDS:
+        PYK.LAST.clear()
         r = PYK.run_case(c)
         r.setdefault("features", {})
         r["features"].setdefault("kind", kind)
+        if PYK.LAST.get("cqm") is not None and not r.get("py_fail"):
+            r["coq"] = cqm_term(c, PYK.LAST)
         return r
-    return {'gate': run_gate, 'mult': run_mult, 'comb': run_comb, 'mwis': run_mwis}[kind](c)
+    return {'gate': run_gate, 'mult': run_mult, 'multwire': run_multwire, 'comb': run_comb, 'mwis': run_mwis}[kind](c)
 
 
 if __name__ == "__main__":
